@@ -88,6 +88,13 @@ def main(argv=None):
     os.chdir(ROOT)
     EVD = os.environ.get("VERIF_EVIDENCE_DIR", "evidence")
     RPD = os.environ.get("VERIF_REPLAY_DIR", "replays")
+    if os.path.realpath(os.environ.get("VERIF_REPO", "/repo")) != "/repo":
+        # a run against a scratch copy (seeded change, mutant, benign rewrite) never overwrites the evidence of /repo
+        import tempfile
+        if "VERIF_EVIDENCE_DIR" not in os.environ:
+            EVD = tempfile.mkdtemp(prefix="verif_scratch_evidence_")
+        if "VERIF_REPLAY_DIR" not in os.environ:
+            RPD = tempfile.mkdtemp(prefix="verif_scratch_replays_")
     os.makedirs(EVD, exist_ok=True)
     os.makedirs(RPD, exist_ok=True)
     if a.replay:
